@@ -3,6 +3,7 @@ package cmd
 import (
 	"fmt"
 	"net/netip"
+	"reflect"
 
 	"github.com/AdguardTeam/golibs/timeutil"
 )
@@ -11,6 +12,13 @@ import (
 // name of the property being checked, used for error messages.
 func validatePositive[T numberOrDuration](prop string, v T) (err error) {
 	if d, ok := any(v).(timeutil.Duration); ok && d.Duration <= 0 {
+		return newNotPositiveError(prop, v)
+	}
+
+	// The other types of the constraint are integers, including the named ones
+	// like [datasize.ByteSize].
+	rv := reflect.ValueOf(v)
+	if (rv.CanInt() && rv.Int() <= 0) || (rv.CanUint() && rv.Uint() == 0) {
 		return newNotPositiveError(prop, v)
 	}
 
